@@ -30,6 +30,12 @@ pub struct BCfg {
     pub close_first: bool,
     pub perturb: u8,
     pub scripts: Vec<Script>,
+    /// keep the reducer parked this long with callers blocked on the full queue before stopping
+    pub long_stall_ms: u64,
+    /// an iterator consumer runs alongside (C14 on stop-race histories)
+    pub iter: bool,
+    /// the DroppableStore is dropped by a panicking owner thread (drop during unwinding)
+    pub panic_drop: bool,
 }
 
 pub fn gen(rng: &mut Rng, tiny: bool, focus: &str) -> BCfg {
@@ -82,6 +88,9 @@ pub fn gen(rng: &mut Rng, tiny: bool, focus: &str) -> BCfg {
         close_first: rng.chance(1, 4),
         perturb: rng.below(3) as u8,
         scripts,
+        long_stall_ms: if !gated { 0 } else if cfg!(miri) { 40_000 } else if !tiny && rng.chance(1, 800) { *rng.pick(&[1100u64, 2300, 3600]) } else { 0 },
+        iter: focus == "C14" || rng.chance(1, 5),
+        panic_drop: how == STOP_DROP && rng.chance(1, 3),
     }
 }
 
@@ -102,6 +111,9 @@ pub fn describe(c: &BCfg) -> J {
         ("stop_operation", J::s(["stop()", "close()", "drop(DroppableStore)", "Store::stop()"][c.how as usize])),
         ("close_first", J::B(c.close_first)),
         ("perturb", J::U(c.perturb as u64)),
+        ("long_stall_ms", J::U(c.long_stall_ms)),
+        ("iterator_consumer", J::B(c.iter)),
+        ("dropped_by_panicking_owner", J::B(c.panic_drop)),
     ])
 }
 
@@ -115,6 +127,7 @@ pub fn execute(c: &BCfg, seed: u64) -> W {
     if let Some((cap, pol)) = c.chan {
         keep.push(w.add_channeled(0, cap, pol, NOGATE, false, true, false));
     }
+    let mut iter_reg = if c.iter { Some(w.add_iter(0, true)) } else { None };
     let droppable = if c.how == STOP_DROP { Some(DroppableStore::new(w.stores[0].clone())) } else { None };
     let returned = AtomicU64::new(0);
     let halt = AtomicBool::new(false);
@@ -141,6 +154,31 @@ pub fn execute(c: &BCfg, seed: u64) -> W {
                 }
             }).unwrap());
         }
+        let consumer = iter_reg.take().map(|(id, mut it)| {
+            let w = &w;
+            std::thread::Builder::new().name("consumer".into()).spawn_scoped(sc, move || {
+                loop {
+                    w.ctx.ev(K::ItInv, 0, 0, id, 0, 0, 0);
+                    match it.next() {
+                        Some((st, act)) => {
+                            w.ctx.evz(K::ItNext, 0, act.id, id, st.digest(), st.steps, st.valid() as u8, act.script);
+                        }
+                        None => {
+                            w.ctx.ev(K::ItNext, 0, 0, id, 0, 0, 0);
+                            break;
+                        }
+                    }
+                }
+                for _ in 0..2 {
+                    w.ctx.ev(K::ItInv, 0, 0, id, 0, 0, 0);
+                    let x = it.next();
+                    w.ctx.ev(K::ItNext, 0, x.as_ref().map(|p| p.1.id).unwrap_or(0), id, 0, 0, x.is_some() as u8 + 2);
+                }
+                w.ctx.ev(K::ItDropInv, 0, 0, id, 0, 0, 0);
+                drop(it);
+                w.ctx.ev(K::ItDropRet, 0, 0, id, 0, 0, 0);
+            }).unwrap()
+        });
         // gate opener: releases the parked reducer only after stop() has been invoked, so that the
         // backlog at stop.inv is what the producers managed to queue
         if c.gated {
@@ -158,6 +196,11 @@ pub fn execute(c: &BCfg, seed: u64) -> W {
             // with a parked reducer only `cap`+1 dispatches can ever return before the gate opens
             let fire = if c.gated { fire.min(c.cap as u64) } else { fire };
             wait_until(|| returned.load(Ordering::Relaxed) >= fire);
+            if c.long_stall_ms > 0 {
+                // queue full, further callers blocked in send, reducer parked: nothing may time out
+                wait_until(|| returned.load(Ordering::Relaxed) >= ((c.n_prod * c.max_actions) as u64).min(c.cap as u64 + 1));
+                std::thread::sleep(std::time::Duration::from_millis(c.long_stall_ms));
+            }
             w.ctx.perturb();
             if c.close_first {
                 w.stop(0, STOP_CLOSE);
@@ -166,6 +209,19 @@ pub fn execute(c: &BCfg, seed: u64) -> W {
                 w.dispatch(0, EP_INHERENT, Act { id: act_id(0, 40, 1), script: 0 });
             }
             match droppable {
+                Some(d) if c.panic_drop => {
+                    // the owner thread panics: the store is dropped while unwinding; its effects are
+                    // complete when the owner thread has been joined
+                    let cx = w.ctx.clone();
+                    let t0 = std::time::Instant::now();
+                    let owner = std::thread::Builder::new().name("owner".into()).spawn(move || {
+                        let _d = d;
+                        cx.ev(K::StopInv, 0, 0, STOP_DROP, 0, 0, 0);
+                        std::panic::panic_any(PANIC_MARK);
+                    }).unwrap();
+                    let _ = owner.join();
+                    w.ctx.ev(K::StopRet, 0, 0, STOP_DROP, 0, t0.elapsed().as_millis() as u64, 0);
+                }
                 Some(d) => {
                     w.drop_droppable(0, d);
                 }
@@ -183,6 +239,9 @@ pub fn execute(c: &BCfg, seed: u64) -> W {
         w.stop(0, STOP_STOP);
         w.stop(0, STOP_TRAIT);
         for h in hs {
+            h.join().unwrap();
+        }
+        if let Some(h) = consumer {
             h.join().unwrap();
         }
     });
@@ -333,6 +392,7 @@ pub fn run(seed: u64, tiny: bool, focus: &str) -> Outcome {
     let mut v = Verdicts::default();
     c04(&h, 0, &mut v, "C04");
     c04(&h, 0, &mut v, "C15");
+    crate::fam_d::c14(&h, 0, &mut v);
     c01(&h, 0, &mut v);
     c02(&h, 0, &mut v);
     crate::oracle_m::c18(&h, &w, 0, &mut v);
